@@ -169,6 +169,7 @@ def audit(props_file):
         path = os.path.join(COQ, f)
         txt = open(path).read()
         code = re.sub(r'\(\*.*?\*\)', ' ', txt, flags=re.S)
+        code = re.sub(r'"(?:[^"]|"")*"', '""', code)      # string literals are data, not vernacular
         for m in FORBIDDEN.finditer(code):
             problems.append('%s: forbidden `%s`' % (f, m.group(0)))
         if re.search(r'^\s*(Variable|Variables|Hypothesis|Hypotheses|Context)\b', code, re.M):
